@@ -242,15 +242,39 @@ def explore_load(prop, tier, seed, oracle, tags, n_quick, emit=(), with_truth=Fa
                 ex.res.count('wild_files_rejected')
             ex.submit(cid, D, o.tags, ['load', 'genes', 'members', 'forest', 'genomes'], extra=o, hist=False)
             continue
-        h = load_or_fail(ex, cid, D)
+        poke = prop in ('C02', 'C04') and ex.rng.random() < 0.15
+        h = load_or_fail(ex, cid, D, **(dict(phyloxml_dir=ex.tmp) if poke and ex.rng.random() < 0.4 else {}))
         if h is None:
             continue
         o = ob.Obs(); o.put('load', 'ok')
         try:
+            if poke:
+                # "in every loaded analysis": also after read-only reporting calls (profiles create genomes lazily and, for
+                # PhyloXML trees, re-read the tree file)
+                ex.res.count('observed_after_reporting_calls')
+                h.create_tree_profile()
+                subs_ = [x for t in h.get_list_top_level_hogs() for x in all_nodes(t) if isinstance(x, ag.HOG) and x.parent is not None]
+                if subs_:
+                    h.create_tree_profile(hog=ex.rng.choice(subs_))
             ob.observe_load(h, o)
             if pyobs:
                 pyobs(h, o)
-            bad = oracle(D, h)
+            if D.meta.get('species_level') and prop == 'C02':
+                # species-level groups are dissolved by the loader; the flag clauses of C02 do not hold for such files on the
+                # unchanged tree (D7), the LINK clauses do: parent and children agree, every gene with a parent is reachable
+                # from exactly one listed top-level HOG, nothing is reachable twice
+                bad = list(o.problems)
+                listed = set(id(x) for t in h.get_list_top_level_hogs() for x in all_nodes(t))
+                for g_ in h.get_list_extant_genes():
+                    if g_.parent is not None and id(g_) not in listed:
+                        bad.append('gene %s has a parent but is not reachable from any listed top-level HOG' % g_.unique_id)
+                    if g_.parent is not None and g_.get_top_level_hog() not in h.get_list_top_level_hogs():
+                        bad.append('gene %s reports a top-level HOG that is not listed' % g_.unique_id)
+            else:
+                bad = oracle(D, h)
+            if prop in ('C01', 'C04'):
+                # facts the abstraction step records: each gene exactly once in the gene list of its genome, parent links
+                bad += [x for x in o.problems if x not in bad][:5]
         except Exception as e:      # noqa
             bad = ['observing the loaded analysis raised %s: %s' % (type(e).__name__, e)]
         if bad:
@@ -296,7 +320,7 @@ def c01(tier, seed):
 def c02(tier, seed):
     def pyobs(h, o):
         pass
-    res = explore_load('C02', tier, seed, orc.c02, ['load', 'forest'], 900, with_truth=True)
+    res = explore_load('C02', tier, seed, orc.c02, ['load', 'forest'], 900, with_truth=True, species_level=True)
     return res
 
 def c03(tier, seed):
@@ -384,7 +408,57 @@ def explore_maps(prop, tier, seed, n_quick, mode):
             ex.fail(cid, D, bad)
         tags = {'C05': ['vmap'], 'C06': ['vmap', 'upmap'], 'C07': ['upmap'], 'C08': ['lmap', 'lagg', 'vmap', 'verr', 'lerr']}[mode]
         ex.submit(cid, D, o.tags, ['load'] + tags, queries=queries)
-    ex.finish()
+    # ---- files outside the history domain, with the MODEL as reference (C05 / C06 only): two separate duplication events on one
+    # branch (sibling paralogGroups), species-level groups, files that encode no history.  Wherever the model's comparison is
+    # consistent (its RETAINED never overwrites: flag c=1) pyham must return the same clusters and they must partition both genomes.
+    if mode in ('C05', 'C06'):
+        for k in range(max(20, n // 5)):
+            kind = ex.rng.choice(['sibling_events', 'sibling_events', 'species_level', 'wild'])
+            if kind == 'wild':
+                D = gen.wild_dataset(ex.rng)
+            else:
+                D = std_dataset(ex.rng, P=dict(dup=0.6, elide=0.7, loss=0.1, multi=0.9))
+                if kind == 'sibling_events':
+                    D.groups, nsp = gen.split_events(ex.rng, D.groups)
+                    if not nsp:
+                        continue
+                    D.families = []
+                else:
+                    D = gen.species_wrap(ex.rng, D)
+            cid = '%s-x%d' % (prop, k)
+            try:
+                h = core.load_py(D)
+            except Exception:      # noqa
+                continue
+            ex.res.count('outside_domain_' + kind)
+            gated = []; queries = []
+            try:
+                pairs, gs = orc.lineage_pairs(h)
+                for a, d in (pairs if len(pairs) <= 25 else ex.rng.sample(pairs, 25)):
+                    v = h.compare_genomes_vertically(gs[a], gs[d])
+                    gated.append((taxS(a) + '>' + taxS(d), ob.vmapS(v), orc.c05_pair(h, gs[a], gs[d])))
+                    queries.append('(v %s %s)' % (tax_q(a), tax_q(d)))
+            except Exception as e:      # noqa
+                ex.fail(cid, D, ['comparison raised %s: %s' % (type(e).__name__, e)])
+                continue
+            o = ob.Obs(); o.put('load', 'ok')
+            ex.submit(cid, D, o.tags, ['load'], queries=queries, extra=gated, hist=False)
+    def custom(cid, D, pytags, L, gated):
+        out = []
+        if not isinstance(gated, list):
+            return out
+        lean = {x.split('|', 1)[0]: x for x in L.get('vmap', [])}
+        for key, pystr, bad5 in gated:
+            lx = lean.get(key)
+            if lx is None or not lx.endswith('|c=1'):
+                continue            # the model's own map is inconsistent here (overwrites): iteration order matters, not compared
+            ex.res.count('outside_domain_pairs_compared')
+            if pystr.rsplit('|', 1)[0] != lx.rsplit('|', 1)[0]:
+                out.append(('vmap-where-the-model-is-consistent', [pystr], [lx]))
+            if bad5:
+                ex.fail(cid, D, ['file outside the history domain, comparison consistent in the model: ' + b for b in bad5[:3]])
+        return out
+    ex.finish(custom)
     ex.close()
     return ex.res
 
@@ -414,7 +488,7 @@ def explore_profiles(prop, tier, seed, n_quick):
         h = load_or_fail(ex, cid, D, **(dict(phyloxml_dir=ex.tmp) if phylo else {}))
         if h is None:
             continue
-        o = ob.Obs(); o.put('load', 'ok')
+        o = ob.Obs(); o.put('load', 'ok'); subq = []
         try:
             bad = orc.c09(D, h, ex.tmp) if prop == 'C09' else orc.c10(D, h)
             tp = h.create_tree_profile()
@@ -430,6 +504,20 @@ def explore_profiles(prop, tier, seed, n_quick):
                         walkj(c, p + (i,))
                 walkj(data, ())
                 o.put('tpjson', ' '.join(items))
+            if prop == 'C10':
+                # profiles of HOGs that are not top-level (sub-HOGs at or below duplications in particular): only the
+                # HOG's own subtree counts
+                subs_ = [x for t in h.get_list_top_level_hogs() for x in all_nodes(t) if isinstance(x, ag.HOG) and x.parent is not None]
+                for x in ex.rng.sample(subs_, min(4, len(subs_))):
+                    tpx = h.create_tree_profile(hog=x).treemap
+                    o.put('tphogsub', nodekey(x) + '|' + ob.profileS(tpx, pathof(x.genome.taxon)))
+                    subq.append('(tphog %s)' % gen.q(nodekey(x)))
+                    mine = collections.Counter(gtax(y) for y in all_nodes(x))
+                    for nd in tpx.traverse():
+                        p_ = pathof(x.genome.taxon) + ob.pathof_rel(nd)
+                        if nd.nbr_genes != mine.get(p_, 0):
+                            bad.append('profile of the sub-HOG %s: nbr_genes at %s is %s, the HOG has %d members there' % (nodekey(x), taxS(p_), nd.nbr_genes, mine.get(p_, 0)))
+                    ex.res.count('sub_hog_profiles')
             held = [(tid, top, h.create_tree_profile(hog=top)) for tid, top in h.get_dict_top_level_hogs().items()]
             for tid, top, tph in held:      # read only after all of them exist
                 o.put('tphog', ob.osS(tid) + '|' + ob.profileS(tph.treemap, pathof(top.genome.taxon)))
@@ -437,7 +525,7 @@ def explore_profiles(prop, tier, seed, n_quick):
             bad = ['tree profile raised %s: %s' % (type(e).__name__, e)]
         if bad:
             ex.fail(cid, D, bad)
-        ex.submit(cid, D, o.tags, ['load', 'tpfull', 'tpjson'] if prop == 'C09' else ['load', 'tpfull', 'tphog'], emit=['profiles'])
+        ex.submit(cid, D, o.tags, ['load', 'tpfull', 'tpjson'] if prop == 'C09' else ['load', 'tpfull', 'tphog', 'tphogsub'], emit=['profiles'], queries=subq)
     ex.finish()
     ex.close()
     return ex.res
@@ -655,6 +743,11 @@ def c12(tier, seed):
                         bad.append('iHam page of %s does not embed the orthoXML' % key)
                     if sub_nwk not in html:
                         bad.append('iHam page of %s does not embed the species subtree' % key)
+                    # ... and it is THE subtree of this analysis' species tree below the HOG's taxon (rendered here from
+                    # the generating tree, not by pyham)
+                    want_nwk = gen.newick_named(D.T, pathof(nd.genome.taxon), D.naming) + ';'
+                    if vis.newick_str != want_nwk or want_nwk not in html:
+                        bad.append('iHam page of %s embeds the tree %r, the species subtree is %r' % (key, vis.newick_str, want_nwk))
                     fd = json.loads(vis.famdata)
                     o.put('ifam', key + '|' + ';'.join(sorted('%s/%s/%s' % (r['id'], r['taxon']['species'], ob.osS(r['protid'])) for r in fd)))
                     if sorted(r['id'] for r in fd) != sorted(g.unique_id for g in nd.get_all_descendant_genes()):
@@ -809,6 +902,13 @@ def c19(tier, seed):
             gx = g.get_dict_xref()
             if gx != dict(xr, id=g.unique_id):
                 bad.append('get_dict_xref of gene %s' % g.unique_id)
+            # what the caller does with the returned dict does not change the gene
+            try:
+                gx.pop('id', None); gx['protId'] = 'overwritten-by-caller'
+                if g.get_dict_xref() != dict(xr, id=g.unique_id) or g.prot_id != xr.get('protId'):
+                    bad.append('gene %s: cross-references changed after the caller modified the dict returned by get_dict_xref()' % g.unique_id)
+            except TypeError:
+                pass
             try:
                 if g.unique_id not in repr(g):
                     bad.append('display string of gene %s lacks its id' % g.unique_id)
@@ -902,6 +1002,29 @@ def c20(tier, seed):
             bad = orc.c01(Dw, hw)
             if bad:
                 ex.fail('C20-%d-w' % k, Dw, ['successful load dropped something: ' + b for b in bad])
+        # ... and when one gene is referenced by two groups (two families, or a sub-group and a later group): if such a
+        # file loads, every group still holds every member it references
+        tops_ = [g for g in D.groups if g[0] == 'og']
+        refs_all = orc.refs_of(D.groups)
+        if len(tops_) >= 2 and refs_all:
+            gdup = ex.rng.choice(refs_all)
+            tgt = ex.rng.choice([i for i, g in enumerate(D.groups) if g[0] == 'og' and gdup not in orc.refs_of([g])] or [None])
+            if tgt is not None:
+                gr2 = list(D.groups); e_ = gr2[tgt]
+                gr2[tgt] = ('og', e_[1], e_[2], list(e_[3]) + [('ref', gdup, None)])
+                ex.res.count('double_reference_files')
+                o2 = ob.Obs()
+                try:
+                    h2 = core.load_py(D, groups=gr2)
+                    o2.put('load', 'ok')
+                    for hid_, top_ in h2.get_dict_top_level_hogs().items():
+                        o2.put('members', ob.osS(hid_) + '=' + ','.join(sorted(leaves(top_))))
+                        want_ = sorted(orc.refs_of([g for g in gr2 if g[0] == 'og' and g[1] == hid_]))
+                        if sorted(leaves(top_)) != want_:
+                            ex.fail('C20-%d-dr' % k, D, ['a gene referenced by two groups: family %s holds %s, its group references %s' % (hid_, sorted(leaves(top_)), want_)], groups=gr2)
+                except Exception as e:      # noqa
+                    o2.put('load', 'err')
+                ex.submit('C20-%d-dr' % k, D, o2.tags, ['members'] if o2.tags.get('load') == ['ok'] else [], groups=gr2, hist=False, extra=None)
         for j, (kind, sp, gr) in enumerate(fault_variants(ex.rng, D, 25 if tier == 'quick' else 80)):
             cid = 'C20-%d-%d' % (k, j)
             ex.res.count('fault_' + kind)
